@@ -301,7 +301,10 @@ class ProgressMonitor(Monitor):
                 states = {n: vws[n]['state'] for n in comp}
                 parked = sorted({s for s in states.values() if s not in ('OPERATION',)})
                 refused = self.refusals(run, comp)
-                key = 'C08/parked:' + ('refused:' + refused if refused else '+'.join(parked) or 'jobs')
+                ok_m, mnick, _ = master_agreement(w, comp, vws)
+                mstate = vws[mnick]['state'] if ok_m else 'none'
+                key = 'C08/parked:' + ('refused:' + refused if refused
+                                       else ('+'.join(parked) or 'jobs') + '/master=' + mstate)
                 self.violate(key, f'group {comp} not back in OPERATION {2 * run.script["k_ticks"]} ticks after the '
                              f'last disturbance: {reason}; states={states} masters='
                              f'{ {n: w.by_identifier.get(vws[n]["master"]) for n in comp} }'
